@@ -92,8 +92,12 @@ def truthy_edges(fi: FuncInfo, is_expr: Callable[[ast.AST], bool], cfg: Optional
     cfg = cfg or fi.cfg
     binds = single_bindings(fi.node)
 
+    aliases = _stable_path_aliases(cfg)
+
     def denotes(e: ast.AST) -> bool:
         if is_expr(e):
+            return True
+        if isinstance(e, ast.Name) and e.id in aliases and is_expr(aliases[e.id]):
             return True
         if isinstance(e, ast.NamedExpr) and is_expr(e.value):
             return True
@@ -129,11 +133,16 @@ def atom_edges(cfg: CFG, pred: Callable[[ast.AST], Optional[bool]]) -> Set[Edge]
     out: Set[Edge] = set()
     reach = cfg.reachable()
     named = _stable_named_tests(cfg)
+    aliases = _stable_path_aliases(cfg)
     for n in cfg.nodes:
         if n.id not in reach or n.kind != "test":
             continue
         a, flip = canon_atom(n.ast)
         want = pred(a)
+        if want is None and aliases and (q.names_in(a) & set(aliases)):
+            # `cb = self._cb` ... `if cb is not None:` — a value read into a local before it is tested
+            a = _subst_aliases(a, aliases)
+            want = pred(a)
         if want is None and isinstance(a, ast.Name) and a.id in named:
             # `ok = <comparison>` ... `if ok:`  — a named boolean whose operands are never rebound
             a2, flip2 = canon_atom(named[a.id])
@@ -145,6 +154,66 @@ def atom_edges(cfg: CFG, pred: Callable[[ast.AST], Optional[bool]]) -> Set[Edge]
         for sid, kind in cfg.succ[n.id]:
             if kind in ("true", "false") and ((kind == "true") != flip) == want:
                 out.add((n.id, sid, kind))
+    return out
+
+
+def _subst_aliases(e: ast.AST, aliases: Dict[str, ast.AST]) -> ast.AST:
+    import copy as _copy
+
+    class T(ast.NodeTransformer):
+        def visit_Name(self, n):
+            if isinstance(n.ctx, ast.Load) and n.id in aliases:
+                return ast.copy_location(_copy.deepcopy(aliases[n.id]), n)
+            return n
+
+    return T().visit(_copy.deepcopy(e))
+
+
+def _stable_path_aliases(cfg: CFG) -> Dict[str, ast.AST]:
+    """single-binding locals bound to a plain attribute path / name (``x = self.a.b``) that the function never stores"""
+    cached = getattr(cfg, "_x_http_aliases", None)
+    if cached is not None:
+        return cached
+    fn = cfg.fn
+    binds = single_bindings(fn)
+    stored: Set[str] = set()
+    assigned: Dict[str, int] = {}
+    for n in q.walk_body(fn):
+        if isinstance(n, (ast.Assign, ast.AugAssign, ast.AnnAssign, ast.Delete)):
+            for p in q.assigned_paths(n):
+                stored.add(p.replace("[]", ""))
+        if isinstance(n, ast.Name) and isinstance(n.ctx, (ast.Store, ast.Del)):
+            assigned[n.id] = assigned.get(n.id, 0) + 1
+    out: Dict[str, ast.AST] = {}
+    for name, val in binds.items():
+        d = q.dotted(val) if isinstance(val, (ast.Attribute, ast.Name)) else None
+        if d is None or d == name:
+            continue
+        root = d.split(".")[0]
+        if assigned.get(root, 0) > 1:
+            continue
+        if "." in d and any(d == sp or d.startswith(sp + ".") or sp.startswith(d + ".") for sp in stored if "." in sp):
+            # the attribute is stored somewhere in the function: the alias stays valid only if no such store can
+            # execute after the alias was taken
+            defs = [n for n in cfg.nodes if n.kind == "stmt" and isinstance(n.ast, (ast.Assign, ast.AnnAssign)) and name in q.assigned_paths(n.ast)]
+            if len(defs) != 1:
+                continue
+            after = reach_without(cfg, (), start=defs[0].id)
+            clash = False
+            for i_ in after:
+                n_ = cfg.nodes[i_]
+                if i_ != defs[0].id and n_.kind == "stmt" and isinstance(n_.ast, ast.stmt):
+                    for sp in q.assigned_paths(n_.ast):
+                        sp = sp.replace("[]", "")
+                        if "." in sp and (d == sp or d.startswith(sp + ".") or sp.startswith(d + ".")):
+                            clash = True
+            if clash:
+                continue
+        out[name] = val
+    try:
+        cfg._x_http_aliases = out
+    except Exception:
+        pass
     return out
 
 
@@ -1204,3 +1273,92 @@ def group_index(e: ast.AST) -> Optional[int]:
     if isinstance(e, ast.Subscript) and isinstance(e.slice, ast.Constant) and type(e.slice.value) is int:
         return e.slice.value
     return None
+
+
+# ---------------------------------------------------------------------------
+# module-level constants, bound arguments
+
+
+def module_consts(mod) -> Dict[str, object]:
+    """module-level NAME = <literal> (numbers, strings, bytes, tuples/lists/sets/frozensets of literals)"""
+    out: Dict[str, object] = {}
+
+    def lit(e):
+        if isinstance(e, ast.Constant):
+            return e.value
+        if isinstance(e, (ast.Tuple, ast.List)):
+            return tuple(lit(x) for x in e.elts)
+        if isinstance(e, ast.Set):
+            return frozenset(lit(x) for x in e.elts)
+        if isinstance(e, ast.Call) and isinstance(e.func, ast.Name) and e.func.id in ("frozenset", "set", "tuple") and len(e.args) == 1:
+            v = lit(e.args[0])
+            return frozenset(v) if e.func.id != "tuple" else tuple(v)
+        raise ValueError
+
+    for k, v in mod.assigns.items():
+        try:
+            out[k] = lit(v)
+        except (ValueError, TypeError):
+            pass
+    return out
+
+
+def const_of(fi_or_mod, e: ast.AST) -> Optional[ast.AST]:
+    """``e`` itself if it is a literal, or the literal a module-level name is bound to (a hoisted constant)"""
+    if isinstance(e, ast.Constant):
+        return e
+    mod = getattr(fi_or_mod, "module", fi_or_mod)
+    if isinstance(e, ast.Name) and isinstance(mod.assigns.get(e.id), ast.Constant):
+        return mod.assigns[e.id]
+    return None
+
+
+def bound_args(repo: Repo, fi: FuncInfo, call: ast.Call) -> Optional[Dict[str, ast.AST]]:
+    """parameter name -> argument expression for a call whose callee resolves statically (constructor calls bind
+    ``__init__``); positional and keyword arguments alike; None when the callee is unknown or uses *args/**kwargs"""
+    h = resolve_call(repo, fi, call)
+    if h is None or any(isinstance(a, ast.Starred) for a in call.args) or any(k.arg is None for k in call.keywords):
+        return None
+    a = h.node.args
+    if a.vararg or a.kwarg:
+        return None
+    names = [x.arg for x in a.posonlyargs + a.args]
+    deco = [q.dotted(d) for d in h.node.decorator_list]
+    if h.cls is not None and "staticmethod" not in deco and names:
+        names = names[1:]
+    out: Dict[str, ast.AST] = {}
+    for i, v in enumerate(call.args):
+        if i >= len(names):
+            return None
+        out[names[i]] = v
+    for k in call.keywords:
+        out[k.arg] = k.value
+    return out
+
+
+def argx(repo: Repo, fi: FuncInfo, call: ast.Call, index: int, name: Optional[str] = None) -> Optional[ast.AST]:
+    """argument by position or by the callee's parameter name (resolved from the callee when ``name`` is not given)"""
+    if index < len(call.args) and not any(isinstance(a, ast.Starred) for a in call.args[: index + 1]):
+        return call.args[index]
+    b = bound_args(repo, fi, call)
+    if b is not None:
+        h = resolve_call(repo, fi, call)
+        a = h.node.args
+        names = [x.arg for x in a.posonlyargs + a.args]
+        deco = [q.dotted(d) for d in h.node.decorator_list]
+        if h.cls is not None and "staticmethod" not in deco and names:
+            names = names[1:]
+        if index < len(names):
+            return b.get(names[index])
+    if name:
+        return q.kwarg(call, name)
+    return None
+
+
+def mk_evaluator(fi: FuncInfo, **kw):
+    """x_absint.Evaluator prepared for ``fi``: module-level constants visible, `except <CONSTANT TUPLE>` resolved"""
+    from .x_absint import Evaluator
+    ev = Evaluator(**kw)
+    ev.globals = module_consts(fi.module)
+    ev.handler_names = lambda h: handler_class_names(fi, h)
+    return ev
